@@ -1,13 +1,142 @@
 //go:build verif
 
 // Contracts for package frt, read by /verif's verifier (fovc).  Comment-only.
+// Callbacks are total functions f(x) with a ghost call trace calls(f), arg(f,k): the conditionals
+// are specified by which thunk is called (exactly one, or none).
 
 package frt
 
-//@ mode slices=heap strings=smt
+//@ mode slices=value strings=smt
+
+//@ func Pipe
+//@   props C14
+//@   panics never
+//@   returns f(elem)
+//@   ensures once: calls(f) == old(calls(f)) + 1 && arg(f, old(calls(f))) == elem
+
+//@ func PipeUnit
+//@   props C14
+//@   panics never
+//@   ensures once: calls(f) == old(calls(f)) + 1 && arg(f, old(calls(f))) == elem
+
+//@ func Println
+//@   props C14
+//@   modifies glob:stdout
+//@   panics never
+//@   ensures out: glob(stdout) == old(glob(stdout)) + str + "\n"
+
+//@ func Sprintf1
+//@   props C14
+//@   panics never
+//@   returns sprintf(fmtstr, arg)
+
+//@ func Sprintf2
+//@   props C14
+//@   panics never
+//@   returns sprintf(fmtstr, arg0, arg1)
+
+//@ func Printf1
+//@   props C14
+//@   modifies glob:stdout
+//@   panics never
+//@   ensures out: glob(stdout) == old(glob(stdout)) + sprintf(fmtstr, arg)
+
+//@ func OpAnd
+//@   props C14
+//@   panics never
+//@   returns e1 && e2
+
+//@ func OpNot
+//@   props C14
+//@   panics never
+//@   returns !e1
+
+//@ func IfElse
+//@   props C14
+//@   panics never
+//@   returns ite(cond, tbody(), fbody())
+//@   ensures one-branch: calls(tbody) == old(calls(tbody)) + ite(cond, 1, 0) && calls(fbody) == old(calls(fbody)) + ite(cond, 0, 1)
+
+//@ func IfElseUnit
+//@   props C14
+//@   panics never
+//@   ensures one-branch: calls(tbody) == old(calls(tbody)) + ite(cond, 1, 0) && calls(fbody) == old(calls(fbody)) + ite(cond, 0, 1)
+
+//@ func IfOnly
+//@   props C14
+//@   panics never
+//@   ensures one-or-none: calls(tbody) == old(calls(tbody)) + ite(cond, 1, 0)
 
 //@ func NewTuple2
-//@   inline
+//@   props C14
+//@   panics never
+//@   ensures e0: result.E0 == e0
+//@   ensures e1: result.E1 == e1
+
+//@ func Fst
+//@   props C14
+//@   panics never
+//@   returns tup.E0
+
+//@ func Snd
+//@   props C14
+//@   panics never
+//@   returns tup.E1
+
+//@ func Destr2
+//@   props C14
+//@   panics never
+//@   ensures e0: result0 == tup.E0
+//@   ensures e1: result1 == tup.E1
+
+//@ func Destr
+//@   props C14
+//@   panics never
+//@   ensures e0: result0 == tup.E0
+//@   ensures e1: result1 == tup.E1
 
 //@ func NewTuple3
-//@   inline
+//@   props C14
+//@   panics never
+//@   ensures e0: result.E0 == e0
+//@   ensures e1: result.E1 == e1
+//@   ensures e2: result.E2 == e2
+
+//@ func Destr3
+//@   props C14
+//@   panics never
+//@   ensures e0: result0 == tup.E0
+//@   ensures e1: result1 == tup.E1
+//@   ensures e2: result2 == tup.E2
+
+//@ func Assert
+//@   props C14
+//@   panics iff !cond
+
+//@ func Panic
+//@   props C14
+//@   panics iff true
+
+//@ func Panicf1
+//@   props C14
+//@   panics iff true
+
+//@ func Panicf2
+//@   props C14
+//@   panics iff true
+
+//@ func toS
+//@   props C14 C11
+//@   panics never
+//@   returns tos_spec(arg)
+
+//@ func SInterP
+//@   props C14 C11
+//@   ghost S []any             -- the argument list handed to fmt.Sprintf
+//@   panics never
+//@   ensures formatted: result == sprintf(fmt1, S)
+//@   ensures args: len(S) == len(args) && (forall k int :: 0 <= k && k < len(args) ==> S[k] == box(tos_spec(args[k])))
+//@   loop 0 index i:
+//@     invariant len: len(sargs) == i
+//@     invariant conv: forall k int :: 0 <= k && k < i ==> sargs[k] == box(tos_spec(args[k]))
+//@   at before call fmt.Sprintf#0: S = sargs
